@@ -55,6 +55,28 @@ MUTANTS: List[Dict[str, Any]] = [
     M("c11-append-on-negative", ["C11"], E("acl.py", "Acl.shading", "                if ace_bottom.shadow_of(other=ace_top, skip=skip):", "                if not ace_bottom.shadow_of(other=ace_top, skip=skip):"), "Acl.shading"),
     M("c11-key-is-bottom", ["C11"], E("acl.py", "Acl.shading", "shading_d.setdefault(ace_top.line, []).append(ace_bottom.line)", "shading_d.setdefault(ace_bottom.line, []).append(ace_top.line)"), "under its top"),
     M("c11-ncw-reads-only-self", ["C11"], E("ace.py", "Ace._shadow_of__srcaddr", "if not (self.srcaddr.ipnet and other.srcaddr.ipnet):", "if not self.srcaddr.ipnet:"), "nc_wildcard"),
+    # ------------------------------------------------------------------ C08
+    M("c08-lt-interior (revert F2)", ["C08"], E("port.py", "Port._ports_to_items", "return [ports[-1] + 1] if ports else [1]", "return [ports[1] + 1] if ports else [1]"), "interior"),
+    M("c08-lt-low-end", ["C08"], E("port.py", "Port._ports_to_items", "return [ports[-1] + 1] if ports else [1]", "return [ports[0] + 1] if ports else [1]"), "_ports_to_items"),
+    M("c08-gt-no-offset", ["C08"], E("port.py", "Port._ports_to_items", "return [ports[0] - 1] if ports else [65535]", "return [ports[0]] if ports else [65535]"), "_ports_to_items"),
+    M("c08-gt-empty-unguarded (revert F2b)", ["C08"], E("port.py", "Port._ports_to_items", "return [ports[0] - 1] if ports else [65535]", "return [ports[0] - 1]"), "empty"),
+    M("c08-gt-empty-wrong-boundary", ["C08"], E("port.py", "Port._ports_to_items", "return [ports[0] - 1] if ports else [65535]", "return [ports[0] - 1] if ports else [65534]"), "empty set"),
+    M("c08-ports-setter-unsorted (revert F3)", ["C08"], E("port.py", "Port.ports.setter", "ports = sorted(ports)", "ports = list(ports)"), "sorted"),
+    M("c08-gt-not-strict", ["C08"], E("port.py", "Port._items_to_ports", "items = [i for i in all_ports if i > items[0]]", "items = [i for i in all_ports if i >= items[0]]"), "strict"),
+    M("c08-lt-not-strict", ["C08"], E("port.py", "Port._items_to_ports", "items = [i for i in all_ports if i < items[0]]", "items = [i for i in all_ports if i <= items[0]]"), "strict"),
+    M("c08-range-exclusive", ["C08"], E("port.py", "Port._items_to_ports", "items = list(range(items[0], items[-1] + 1))", "items = list(range(items[0], items[-1]))"), "inclusive"),
+    M("c08-universe-from-zero", ["C08"], E("port.py", "Port._items_to_ports", "all_ports = list(range(1, 65535 + 1))", "all_ports = list(range(0, 65535 + 1))"), "1..65535"),
+    M("c08-codec-universe", ["C08"], E("helpers.py", "string_to_ports", "ports_ = [i for i in ports_calc if 1 <= i <= 65535]", "ports_ = [i for i in ports_calc if 1 <= i < 65535]"), "1..65535"),
+    M("c08-items-unsorted", ["C08"], E("port.py", "Port._line__items_to_ints", "return sorted(ports)", "return ports"), "sorted"),
+    M("c08-unknown-operator-falls-through", ["C08"], E("port.py", "Port._items_to_ports", '        raise ValueError(f"invalid port {operator=}")', "        return items"), "unknown operator"),
+    M("c08-neq-branch-missing", ["C08"], E("port.py", "Port._items_to_ports", '        if operator == "neq":\n            items = [i for i in all_ports if i not in items]\n            return items\n', ""), "neq"),
+    M("c08-range-arity", ["C08"], E("port.py", "Port._line__items_to_ints", 'if operator == "range" and len(ports) != 2:', 'if operator == "range" and len(ports) < 2:'), "operand count"),
+    M("c08-nxos-multi-eq", ["C08"], E("port.py", "Port._line__items_to_ints", 'if platform in ["asa", "nxos"] and len(ports) != 1:', 'if platform in ["asa"] and len(ports) != 1:'), "operand count"),
+    M("c08-ports-setter-stores-directly", ["C08"], E("port.py", "Port.ports.setter", '        self.line = " ".join(items)\n', '        self._ports = ports\n        self.line = " ".join(items)\n'), "_ports"),
+    M("c08-line-setter-forgets-sport", ["C08"], E("port.py", "Port.line.setter", "        self._ports = ports\n        self._sport = h.ports_to_string(ports)\n", "        self._ports = ports\n"), "_sport"),
+    M("c08-sport-from-items", ["C08"], E("port.py", "Port.line.setter", "self._sport = h.ports_to_string(ports)", "self._sport = h.ports_to_string(_items)"), "_sport"),
+    M("c08-sport-setter-no-rebuild", ["C08"], E("port.py", "Port.sport.setter", "self.ports = h.string_to_ports(sport)", "self._sport = sport"), "sport"),
+    M("c08-operator-not-validated", ["C08"], E("port.py", "Port._line__operator", "        if operator not in expected:\n            raise ValueError(f\"invalid port {operator=}, {expected=}\")\n", ""), "_line__operator"),
     # ------------------------------------------------------------------ C09
     M("c09-www-8080", ["C09"], E("port_name.py", "<module>", '    "gopher": 70,\n    "finger": 79,\n    "www": 80,\n    "hostname": 101,\n    "pop2": 109,\n    "pop3": 110,\n    "sunrpc": 111,\n    "ident": 113,\n    "nntp": 119,\n    "bgp": 179,', '    "gopher": 70,\n    "finger": 79,\n    "www": 8080,\n    "hostname": 101,\n    "pop2": 109,\n    "pop3": 110,\n    "sunrpc": 111,\n    "ident": 113,\n    "nntp": 119,\n    "bgp": 179,'), "www"),
     M("c09-igrp-88-in-ios", ["C09"], E("protocol.py", "<module>", '    "eigrp": 88,\n    "ospf": 89,\n    "nos": 94,\n    "pim": 103,\n    "pcp": 108,\n}\nPROTOCOLS_NXOS', '    "eigrp": 88,\n    "igrp": 88,\n    "ospf": 89,\n    "nos": 94,\n    "pim": 103,\n    "pcp": 108,\n}\nPROTOCOLS_NXOS'), "igrp"),
@@ -69,6 +91,9 @@ MUTANTS: List[Dict[str, Any]] = [
 
 
 TWINS: List[Dict[str, Any]] = [
+    {"id": "twin-port-inverse-minmax", "edits": [E("port.py", "Port._ports_to_items", "return [ports[0] - 1] if ports else [65535]", "return [min(ports) - 1] if ports else [65535]"), E("port.py", "Port._ports_to_items", "return [ports[-1] + 1] if ports else [1]", "return [max(ports) + 1] if ports else [1]")]},
+    {"id": "twin-gt-ge-plus-one", "edits": [E("port.py", "Port._items_to_ports", "items = [i for i in all_ports if i > items[0]]", "items = [i for i in all_ports if i >= items[0] + 1]")]},
+    {"id": "twin-range-arity-form", "edits": [E("port.py", "Port._line__items_to_ints", 'if operator == "range" and len(ports) != 2:', 'if operator == "range" and not len(ports) == 2:')]},
     {"id": "twin-shading-combinations", "edits": [E("acl.py", "Acl.shading", "        for idx, ace_top in enumerate(aces):\n            aces_bottom = aces[idx + 1 :]\n            for ace_bottom in aces_bottom:\n                if ace_bottom.shadow_of(other=ace_top, skip=skip):\n                    if ace_bottom.line not in shadow:\n                        shading_d.setdefault(ace_top.line, []).append(ace_bottom.line)\n                    shadow.add(ace_bottom.line)\n", "        for idx, ace_top in enumerate(aces):\n            for ace_bottom in aces[idx + 1 :]:\n                if not ace_bottom.shadow_of(other=ace_top, skip=skip):\n                    continue\n                if ace_bottom.line not in shadow:\n                    shading_d.setdefault(ace_top.line, []).append(ace_bottom.line)\n                    shadow.add(ace_bottom.line)\n")]},
     {"id": "twin-delete-shadow-early-return", "edits": [E("acl.py", "Acl.delete_shadow", "        if not shading_d:\n            return {}\n", "        if not shading_d:\n            return shading_d\n")]},
     {"id": "twin-shadow_of-and-chain", "edits": [E("ace.py", "Ace.shadow_of", "        if not self._shadow_of__option(other):\n            return False\n        return True\n", "        return self._shadow_of__option(other)\n")]},
